@@ -31,6 +31,7 @@ var relationNames = map[string]bool{
 
 func runC15(c *an.Ctx) {
 	ruleS1S2(c)
+	ruleS5(c)
 	ruleS3(c)
 	ruleS4(c)
 }
@@ -41,17 +42,33 @@ func relationFuncs(c *an.Ctx) []*ssa.Function {
 		if fn.Parent() != nil {
 			continue
 		}
-		if !relationNames[fn.Name()] || fn.Name() == "indexEqual" {
-			continue
-		}
 		// the equivalence relations live in equivalence.go (anchor file); relations with the
 		// same names elsewhere (types' CheckEqual etc.) belong to C07/C17
 		if !strings.HasSuffix(c.P.Fset.Position(fn.Pos()).Filename, "equivalence.go") {
 			continue
 		}
-		out = append(out, fn)
+		if relationNames[fn.Name()] && fn.Name() != "indexEqual" {
+			out = append(out, fn)
+			continue
+		}
+		// helpers with the shape of a binary relation: f(a T, b T') with T == T' or T implementing T'
+		if len(fn.Params) >= 2 && isRelationShape(fn.Params[0].Type(), fn.Params[1].Type()) {
+			out = append(out, fn)
+		}
 	}
 	return out
+}
+
+func isRelationShape(a, b types.Type) bool {
+	if types.Identical(a, b) {
+		_, isPtr := a.Underlying().(*types.Pointer)
+		_, isIface := a.Underlying().(*types.Interface)
+		return isPtr || isIface
+	}
+	if iface, ok := b.Underlying().(*types.Interface); ok && iface.NumMethods() > 0 {
+		return types.Implements(a, iface)
+	}
+	return false
 }
 
 func recvTypeName(fn *ssa.Function) string {
@@ -74,9 +91,11 @@ func ruleS1S2(c *an.Ctx) {
 	c.Floor("S1", "equivalence relations in equivalence.go", len(fns), 20)
 	nSites := 0
 	rels := map[string]*an.Relation{}
+	relByFn := map[*ssa.Function]*an.Relation{}
 	for _, fn := range fns {
 		rel := an.NewRelation(fn)
 		rels[recvTypeName(fn)+"."+fn.Name()] = rel
+		relByFn[fn] = rel
 		if len(rel.OSet) == 0 {
 			c.Info("S1", "unary@"+an.FnName(fn), fn.Pos(), "no second operand")
 			continue
@@ -140,14 +159,20 @@ func ruleS1S2(c *an.Ctx) {
 				c.Undecided("S2", "field("+cv.typ+"."+fname+")", token.NoPos, "field not found")
 				continue
 			}
-			okR := rel.ReadsField(f, an.ClassR)
-			okO := rel.ReadsField(f, an.ClassO)
+			okR, okO := false, false
+			for _, rr := range withHelpers(rel, relByFn) {
+				okR = okR || rr.ReadsField(f, an.ClassR)
+				okO = okO || rr.ReadsField(f, an.ClassO)
+			}
 			c.Check("S2", "covers("+cv.typ+"."+fname+")@"+cv.rel, rel.Fn.Pos(), okR && okO,
 				fmt.Sprintf("the semantic field must be read from both programs (receiver side=%v, argument side=%v); a dropped clause makes differing programs compare equal", okR, okO))
 		}
 		for _, m := range cv.methods {
-			okR := rel.CallsMethod(m, an.ClassR)
-			okO := rel.CallsMethod(m, an.ClassO)
+			okR, okO := false, false
+			for _, rr := range withHelpers(rel, relByFn) {
+				okR = okR || rr.CallsMethod(m, an.ClassR)
+				okO = okO || rr.CallsMethod(m, an.ClassO)
+			}
 			c.Check("S2", "covers("+m+"())@"+cv.rel, rel.Fn.Pos(), okR && okO,
 				fmt.Sprintf("the accessor must be consulted on both sides (receiver side=%v, argument side=%v)", okR, okO))
 		}
@@ -166,6 +191,39 @@ func ruleS1S2(c *an.Ctx) {
 		}, func(in ssa.Instruction) bool { return an.CalleeIs(in, ce) })
 		c.Check("S2", "EquivalentCall-delegates", ec.Pos(), ok, "EquivalentCall may answer true only through CallStm.EquivalentTo")
 	}
+}
+
+// withHelpers: rel plus the relations (same file) it calls with its own two
+// operands in the same roles (an extracted helper keeps the coverage).
+func withHelpers(rel *an.Relation, all map[*ssa.Function]*an.Relation) []*an.Relation {
+	out := []*an.Relation{rel}
+	seen := map[*ssa.Function]bool{rel.Fn: true}
+	var add func(r *an.Relation, d int)
+	add = func(r *an.Relation, d int) {
+		if d > 2 {
+			return
+		}
+		an.Instrs(r.Fn, func(in ssa.Instruction) {
+			call, ok := in.(*ssa.Call)
+			if !ok {
+				return
+			}
+			callee := call.Call.StaticCallee()
+			h, isRel := all[callee]
+			if !isRel || seen[callee] || len(call.Call.Args) < 2 {
+				return
+			}
+			// helper(recv-side, arg-side): the operands themselves, not components
+			if r.ClassOf(call.Call.Args[0]) == an.ClassR && r.ClassOf(call.Call.Args[1]) == an.ClassO &&
+				an.LastSeg(call.Call.Args[0]) == "·" && an.LastSeg(call.Call.Args[1]) == "·" {
+				seen[callee] = true
+				out = append(out, h)
+				add(h, d+1)
+			}
+		})
+	}
+	add(rel, 0)
+	return out
 }
 
 func promotedField(p *an.Prog, typ, field string) *types.Var {
@@ -418,6 +476,129 @@ func ruleS4(c *an.Ctx) {
 				}
 			})
 			c.Check("S4", "readonly-guard@"+name, fn.Pos(), ok, "a pipestance attached without the lock must not be stepped, reset, restarted or killed")
+		}
+	}
+}
+
+// ruleS5: element-wise relations compare EVERY element: in the loop over the
+// receiver's collection each iteration that lets the relation continue must
+// have crossed the true edge of the element relation (or a tabled escape).
+func ruleS5(c *an.Ctx) {
+	p := c.P
+	type spec struct {
+		fn, typ, field string
+		elemRel        []string // names of the element relation
+		failIsNonNil   bool     // relation returns an error (nil = equal) instead of a bool
+		escape         func(r an.Rel) bool
+	}
+	isWildcard := func(r an.Rel) bool {
+		return r.Op == token.EQL && (an.IsStringConst(r.Y, "*") || an.IsStringConst(r.X, "*"))
+	}
+	specs := []spec{
+		{"(*Pipeline).EquivalentTo", "Pipeline", "Calls", []string{"EquivalentTo"}, false, nil},
+		{"(*BindStms).Equals", "BindStms", "List", []string{"Equals"}, false, isWildcard},
+		{"(*ArrayExp).equal", "ArrayExp", "Value", []string{"equal"}, true, nil},
+		{"(*MapExp).equal", "MapExp", "Value", []string{"equal"}, true, nil},
+	}
+	for _, sp := range specs {
+		fn := c.NeedFunc(pkgSyntax, sp.fn)
+		f := p.Field(pkgSyntax, sp.typ, sp.field)
+		if f == nil {
+			f = promotedField(p, sp.typ, sp.field)
+		}
+		if fn == nil || f == nil {
+			c.Undecided("S5", "anchor("+sp.fn+")", token.NoPos, "relation or collection field not found")
+			continue
+		}
+		// loop element: a load of an element of recv.<field> (slice) or the Next of a range over it (map)
+		var elems []ssa.Instruction
+		an.Instrs(fn, func(in ssa.Instruction) {
+			switch x := in.(type) {
+			case *ssa.UnOp:
+				if ia, ok := x.X.(*ssa.IndexAddr); ok && x.Op == token.MUL && an.LoadsField(ia.X, f) && an.RootOf(ia.X) == ssa.Value(fn.Params[0]) {
+					if _, isPhi := ia.Index.(*ssa.Phi); isPhi || true {
+						elems = append(elems, in)
+					}
+				}
+			case *ssa.Next:
+				if rg, ok := x.Iter.(*ssa.Range); ok && an.LoadsField(rg.X, f) && an.RootOf(rg.X) == ssa.Value(fn.Params[0]) {
+					elems = append(elems, in)
+				}
+			}
+		})
+		if len(elems) == 0 {
+			c.Fail("S5", "elements-compared@"+sp.fn, fn.Pos(), "the relation no longer iterates over "+sp.typ+"."+sp.field)
+			continue
+		}
+		isElemRelOK := func(r an.Rel) bool {
+			var call *ssa.Call
+			if sp.failIsNonNil {
+				if r.Op != token.EQL || !an.IsNil(r.Y) {
+					return false
+				}
+				call, _ = r.X.(*ssa.Call)
+			} else {
+				if r.Op != token.ILLEGAL || !r.Truth {
+					return false
+				}
+				call, _ = r.X.(*ssa.Call)
+			}
+			if call == nil {
+				return false
+			}
+			name := ""
+			if fn := call.Call.StaticCallee(); fn != nil {
+				name = fn.Name()
+			} else if call.Call.IsInvoke() {
+				name = call.Call.Method.Name()
+			}
+			for _, n := range sp.elemRel {
+				if n == name {
+					return true
+				}
+			}
+			return false
+		}
+		for _, S := range elems {
+			// targets: the same element load again (next iteration) or a return that reports "equal"
+			w := an.Query{Fn: fn, After: S,
+				Target: func(in ssa.Instruction) bool {
+					if in == S {
+						return true
+					}
+					ret, ok := in.(*ssa.Return)
+					if !ok {
+						return false
+					}
+					v := an.RetVal(ret, 0)
+					if sp.failIsNonNil {
+						return an.IsNil(v)
+					}
+					cv, isC := v.(*ssa.Const)
+					return isC && cv.Value != nil && cv.Value.String() == "true"
+				},
+				BarrierEdge: func(from, to *ssa.BasicBlock) bool {
+					cnd, t, ok := an.EdgeCond(from, to)
+					if !ok {
+						return false
+					}
+					r := an.Normalize(cnd, t)
+					if isElemRelOK(r) {
+						return true
+					}
+					if sp.escape != nil && sp.escape(r) {
+						return true
+					}
+					// map range: loop exit edge belongs to the header, not to an iteration
+					if nx, isNext := S.(*ssa.Next); isNext {
+						if ex, isEx := cnd.(*ssa.Extract); isEx && ex.Tuple == ssa.Value(nx) && ex.Index == 0 && !t {
+							return true
+						}
+					}
+					return false
+				}}.Find()
+			c.Check("S5", "every-element-compared@"+sp.fn, S.Pos(), w == nil,
+				"each element of "+sp.typ+"."+sp.field+" must be compared with the full element relation before the relation can report equality; "+c.WitnessString(w))
 		}
 	}
 }
